@@ -5,6 +5,7 @@ import (
 	"fmt"
 	"reflect"
 	"sync"
+	"sync/atomic"
 	"time"
 
 	"github.com/KevoDB/kevo/pkg/common/log"
@@ -193,6 +194,10 @@ func (r *RegistryImpl) Begin(ctx context.Context, engine interface{}, readOnly b
 	}
 	resultCh := make(chan txResult, 1)
 
+	// Decides the race between the caller giving up and the goroutine handing
+	// over its result: whoever flips the flag first wins, the loser cleans up
+	var settled atomic.Bool
+
 	// Start transaction in a goroutine
 	go func() {
 		var tx Transaction
@@ -232,14 +237,12 @@ func (r *RegistryImpl) Begin(ctx context.Context, engine interface{}, readOnly b
 		}
 
 		verifhook.At("tx.registry.begin.after_tx")
-		select {
-		case resultCh <- txResult{tx, err}:
-			// Successfully sent result
-		case <-timeoutCtx.Done():
-			// Context timed out, but try to rollback if we got a transaction
-			if tx != nil {
-				tx.Rollback()
-			}
+		if settled.CompareAndSwap(false, true) {
+			// The caller has not given up; the channel is buffered, this never blocks
+			resultCh <- txResult{tx, err}
+		} else if tx != nil {
+			// The caller timed out before: nobody will ever see this transaction
+			tx.Rollback()
 		}
 	}()
 
@@ -270,6 +273,13 @@ func (r *RegistryImpl) Begin(ctx context.Context, engine interface{}, readOnly b
 		return txID, nil
 
 	case <-timeoutCtx.Done():
+		if !settled.CompareAndSwap(false, true) {
+			// The goroutine handed its result over at the same moment; since this
+			// call reports a timeout, release what it created
+			if late := <-resultCh; late.tx != nil {
+				late.tx.Rollback()
+			}
+		}
 		return "", fmt.Errorf("transaction creation timed out: %w", timeoutCtx.Err())
 	}
 }
